@@ -1,6 +1,6 @@
 //! C14: the gas service holds exactly what was paid in minus what its collector paid out.
 
-use axmc::aux::Principal;
+use axmc::aux::{FussyToken, Principal};
 use axmc::explore::*;
 use axmc::its::{metadata_scval, token_scval};
 use axmc::refs::*;
@@ -19,12 +19,12 @@ struct Ctx {
 #[derive(Clone, Hash)]
 struct Model {
     advances: u8,
-    /// per token: balances of U1, U2, V and the service
-    bal: [[i128; 4]; 2],
-    paid: [i128; 2],
-    added: [i128; 2],
-    collected: [i128; 2],
-    refunded: [i128; 2],
+    /// per token: balances of U1, U2, V, the service, the collector, the stranger
+    bal: [[i128; 6]; 3],
+    paid: [i128; 3],
+    added: [i128; 3],
+    collected: [i128; 3],
+    refunded: [i128; 3],
 }
 
 #[derive(Clone, Copy, Debug, PartialEq, Eq, Serialize, Deserialize)]
@@ -40,8 +40,9 @@ enum Amt {
 enum Act {
     Pay { token: usize, spender: usize, amt: Amt, auth: bool },
     Add { token: usize, spender: usize, amt: Amt, auth: bool },
-    Collect { token: usize, amt: Amt, by: usize },
-    Refund { token: usize, amt: Amt, by: usize },
+    /// receiver: 0 = V, 1 = the gas collector itself, 2 = an address the third token refuses
+    Collect { token: usize, amt: Amt, by: usize, receiver: u8 },
+    Refund { token: usize, amt: Amt, by: usize, receiver: u8 },
     Advance(u32),
 }
 
@@ -81,15 +82,16 @@ impl Scenario for C14 {
             interchain_token::InterchainToken,
             (admin.clone(), Option::<Address>::None, to_val(env, &sbytes(&[3u8; 32])), to_val(env, &metadata_scval(b"Gas", b"GAS", 7))),
         );
-        for t in [&asset, &native] {
+        let fussy = env.register(FussyToken, (who[5].clone(),));
+        for t in [&asset, &native, &fussy] {
             for (i, n) in [(0usize, 3i128), (1, 2)] {
                 let c = w.call(t, "mint", &[who[i].to_val(), w.v(n)], Auth::Setup);
                 assert!(c.ok, "{}", c.err);
             }
         }
         (
-            Ctx { w, gas, tokens: vec![asset, native], who },
-            Model { advances: 0, bal: [[3, 2, 0, 0]; 2], paid: [0; 2], added: [0; 2], collected: [0; 2], refunded: [0; 2] },
+            Ctx { w, gas, tokens: vec![asset, native, fussy], who },
+            Model { advances: 0, bal: [[3, 2, 0, 0, 0, 0]; 3], paid: [0; 3], added: [0; 3], collected: [0; 3], refunded: [0; 3] },
         )
     }
 
@@ -97,6 +99,14 @@ impl Scenario for C14 {
         let mut v = vec![];
         if m.advances < 1 {
             v.push(Act::Advance(20));
+            // ~64 days: longer than any TTL a contract extends to, shorter than the minimum persistent TTL
+            v.push(Act::Advance(1_100_000));
+        }
+        // third token: refuses transfers to one address; a payout to it must fail as a whole
+        v.push(Act::Pay { token: 2, spender: 0, amt: Amt::One, auth: true });
+        for receiver in [0u8, 2] {
+            v.push(Act::Collect { token: 2, amt: Amt::One, by: 3, receiver });
+            v.push(Act::Refund { token: 2, amt: Amt::One, by: 3, receiver });
         }
         for token in 0..2 {
             for spender in 0..2 {
@@ -110,13 +120,16 @@ impl Scenario for C14 {
             v.push(Act::Pay { token, spender: 0, amt: Amt::One, auth: false });
             v.push(Act::Add { token, spender: 0, amt: Amt::One, auth: false });
             for amt in AMTS {
-                v.push(Act::Collect { token, amt, by: 3 });
-                v.push(Act::Refund { token, amt, by: 3 });
+                v.push(Act::Collect { token, amt, by: 3, receiver: 0 });
+                v.push(Act::Refund { token, amt, by: 3, receiver: 0 });
             }
             for by in [4usize, 5] {
                 for amt in if self.thorough { vec![Amt::One, Amt::All] } else { vec![Amt::One] } {
-                    v.push(Act::Collect { token, amt, by });
-                    v.push(Act::Refund { token, amt, by });
+                    v.push(Act::Collect { token, amt, by, receiver: 0 });
+                    v.push(Act::Refund { token, amt, by, receiver: 0 });
+                    // paying out *to the collector* still needs the collector's own authorisation
+                    v.push(Act::Collect { token, amt, by, receiver: 1 });
+                    v.push(Act::Refund { token, amt, by, receiver: 1 });
                 }
             }
         }
@@ -184,13 +197,14 @@ impl Scenario for C14 {
                     out.expect(h0 == w.state_hash(), "rejected-but-changed-state", || format!("{:?}", a));
                 }
             }
-            Act::Collect { token, amt, by } | Act::Refund { token, amt, by } => {
+            Act::Collect { token, amt, by, receiver } | Act::Refund { token, amt, by, receiver } => {
                 let collect = matches!(a, Act::Collect { .. });
                 out.kind = if collect { "collect_fees" } else { "refund" };
                 let held = m.bal[*token][3];
                 let x = amt_of(*amt, held);
                 let tok = token_scval(&w.sc_addr(&ctx.tokens[*token]), x);
-                let recv = ctx.who[2].clone();
+                let recv = match receiver { 0 => ctx.who[2].clone(), 1 => ctx.who[3].clone(), _ => ctx.who[5].clone() };
+                let rix = match receiver { 0 => 2usize, 1 => 4, _ => 5 };
                 let signers = [ctx.who[*by].clone()];
                 let call = if collect {
                     w.call(&ctx.gas, "collect_fees", &[recv.to_val(), to_val(env, &tok)], Auth::By(&signers))
@@ -198,7 +212,7 @@ impl Scenario for C14 {
                     w.call(&ctx.gas, "refund", &[to_val(env, &sstr("msg-7")), recv.to_val(), to_val(env, &tok)], Auth::By(&signers))
                 };
                 out.accepted = call.ok;
-                let want = *by == 3 && x > 0 && x <= held;
+                let want = *by == 3 && x > 0 && x <= held && *receiver != 2;
                 // a refund of 0 by the collector is outside the statement; it must still move nothing
                 let unspecified = !collect && *by == 3 && x == 0;
                 if !unspecified {
@@ -207,7 +221,7 @@ impl Scenario for C14 {
                 if call.ok {
                     if want {
                         m.bal[*token][3] -= x;
-                        m.bal[*token][2] += x;
+                        m.bal[*token][rix] += x;
                         if collect { m.collected[*token] += x } else { m.refunded[*token] += x }
                     }
                     if !unspecified {
@@ -228,8 +242,8 @@ impl Scenario for C14 {
 
     fn probe(&self, ctx: &Ctx, m: &Model, out: &mut StepOut) {
         let w = &ctx.w;
-        for t in 0..2 {
-            let holders = [&ctx.who[0], &ctx.who[1], &ctx.who[2], &ctx.gas];
+        for t in 0..3 {
+            let holders = [&ctx.who[0], &ctx.who[1], &ctx.who[2], &ctx.gas, &ctx.who[3], &ctx.who[5]];
             for (i, h) in holders.iter().enumerate() {
                 let q = w.query(&ctx.tokens[t], "balance", &[h.to_val()]).and_then(|v| i128_of(&v));
                 out.expect(q == Some(m.bal[t][i]), "probe.balance", || format!("token {} holder {}: {:?} vs {}", t, i, q, m.bal[t][i]));
@@ -249,7 +263,7 @@ fn main() {
         let thorough = tier == "thorough";
         let mut o = Opts::new(tier, if thorough { 10 } else { 4 });
         o.min_depth = 3;
-        o.rule = "all sequences over pay_gas / add_gas (2 tokens: stellar asset contract and native interchain token; spenders U1, U2; amounts -1, 0, 1, balance, balance+1; authorised by the spender or by someone else) and collect_fees / refund (amounts -1, 0, 1, held, held+1; by collector, owner, stranger); after every new state all balances of both tokens and the equation held == paid + added - collected - refunded are compared with the model".into();
+        o.rule = "all sequences over pay_gas / add_gas (2 tokens: stellar asset contract and native interchain token; spenders U1, U2; amounts -1, 0, 1, balance, balance+1; authorised by the spender or by someone else) and collect_fees / refund (amounts -1, 0, 1, held, held+1; by collector, owner, stranger; to a receiver, to the collector itself, and to an address that a third token refuses); after every new state all balances of both tokens and the equation held == paid + added - collected - refunded are compared with the model".into();
         (C14 { thorough }, o)
     });
 }
